@@ -242,3 +242,90 @@ LOOPS.update({
     "receiver::receiver::Receiver::gc_object_error": "drain: every iteration removes one element (pop_first) of the set whose length the loop condition compares with the configured maximum; "
                                                    "nothing inserts into objects_error inside the loop",
 })
+
+# =================================================================================================================================================
+# debug_assert! sites (R1d): they panic in debug builds only; each is reviewed like any other site
+def dbg(fn, msg, why, requires=()):
+    site('%s|panic|panicking::panic("assertion failed: %s")' % (fn, msg), why, requires)
+
+
+for c in ("alcnocode::AlcNoCode", "alcrs28::AlcRS28", "alcrs28underspecified::AlcRS28UnderSpecified", "alcrs2m::AlcRS2m"):
+    dbg(CODEC % c + "::get_fti", "fti[0] == lct::Ext::Fti as u8",
+        "get_ext(data, lct, Ext::Fti) only returns a slice whose first byte equals the requested HET", [("guard", "common::lct::get_ext", r"het == ext")])
+RB = "<tools::ringbuffer::RingBuffer as std::io::%s>::%s"
+dbg(RB % ("Read", "read"), "self.consumer <= self.buffer.len()", RING_INV)
+dbg(RB % ("Read", "read"), "self.consumer <= self.producer", RING_INV)
+dbg(RB % ("Read", "read"), "self.consumer != self.buffer.len()", RING_INV)
+dbg(RB % ("Write", "write"), "self.consumer > self.producer", RING_INV)
+dbg(RB % ("Write", "write"), "self.producer != self.buffer.len()", RING_INV)
+dbg(RB % ("Write", "write"), "self.producer < self.consumer", RING_INV)
+dbg("common::alc::parse_sct", "ext.len() >= 4", "get_ext returns extensions of at least 4 bytes (fixed-length ones are 4 bytes, variable ones have 1 <= HEL words)",
+    [("guard", "common::lct::get_ext", r"hel == 0")])
+dbg("receiver::blockdecoder::BlockDecoder::push", "self.initialized",
+    "push_to_block2 calls push() only after `if !block.initialized { block.init(..)? }` succeeded", [("guard", "receiver::objectreceiver::ObjectReceiver::push_to_block2", r"initialized")])
+dbg("receiver::blockdecoder::BlockDecoder::push", "self.decoder.is_some()",
+    "init() stores a decoder on every Ok path (fix F5 returns Err for RS GF(2^m)); deallocate() is only applied to completed blocks and push() returns first for those",
+    [("guard", "receiver::blockdecoder::BlockDecoder::push", r"self\.completed")])
+dbg("receiver::blockwriter::BlockWriter::init_decoder", "self.decoder.is_none()", "only called under `self.decoder.is_none()` in decode_write_pkt",
+    [("guard", "receiver::blockwriter::BlockWriter::decode_write_pkt", r"self\.decoder is (None|Some)")])
+dbg("receiver::blockwriter::BlockWriter::write", "block.completed", "write_blocks breaks out of its loop on `!block.completed` before calling write()",
+    [("guard", "receiver::objectreceiver::ObjectReceiver::write_blocks", r"completed")])
+dbg("receiver::blockwriter::BlockWriter::write", "data.len() <= self.bytes_left", "data was just trimmed to bytes_left when it was longer (the match above)",
+    [("guard", "receiver::blockwriter::BlockWriter::write", r"bytes_left")])
+OR_ = "receiver::objectreceiver::ObjectReceiver::"
+dbg(OR_ + "attach_fdt", "self.toi != lct::TOI_FDT", "attach_fdt is only called on the objects of Receiver.objects, which push_obj creates for TOI != 0 (TOI 0 goes to push_fdt_obj)",
+    [("guard", "receiver::receiver::Receiver::push", r"toi")])
+dbg(OR_ + "attach_fdt", "self.transfer_length.is_none()",
+    "transfer_length is assigned only together with an OTI (set_oti_from_pkt) or in attach_fdt itself, which runs its body once per object (fdt_instance_id guard): with oti None it is still None")
+dbg(OR_ + "init_blocks_partitioning", "self.blocks.is_empty()", "dominated by the early return `nb_block() > 0`, and nb_block() = blocks_offset + blocks.len()",
+    [("guard", OR_ + "init_blocks_partitioning", r"nb_block")])
+dbg(OR_ + "init_object_writer", "self.block_writer.is_none()", "block_writer is only assigned here, after the `object_writer.is_some() -> return` guard: the body runs once",
+    [("guard", OR_ + "init_object_writer", r"object_writer is (Some|None)")])
+dbg(OR_ + "push_to_block2", "self.oti.is_some()", "push() caches the packet and returns when oti is None; push_from_cache replays only once blocks exist, i.e. after the partition was computed from oti",
+    [("guard", OR_ + "push", r"self\.oti is (Some|None)")])
+dbg(OR_ + "push_to_block2", "self.transfer_length.is_some()",
+    "an OTI always comes with a transfer length: set_oti_from_pkt puts the object in error when the packet has none (and push returns since fix F13), attach_fdt sets both")
+dbg(OR_ + "push_to_block2", "self.block_writer.is_none()", "init_object_writer creates the block writer only when transfer_length != 0; this assertion is on the transfer_length == 0 path")
+dbg(OR_ + "set_oti_from_pkt", "self.toi != lct::TOI_FDT", "set_cenc_from_pkt runs first and forces Cenc::Null for TOI 0, so `cenc.is_none()` excludes the FDT object")
+dbg(OR_ + "write_blocks", "self.total_allocated_blocks_size >= block.block_size", "block_size was added to the total when the block was initialised (push_to_block2) and is subtracted once, here")
+dbg("receiver::receiver::Receiver::push", "self.tsi == alc_pkt.lct.tsi",
+    "internal callers dispatch by TSI (MultiReceiver keys receivers by (endpoint, tsi); push_data filters on tsi). A direct external call with a foreign TSI is API misuse outside the packet-input surface of C04")
+for d in ("DecompressDeflate", "DecompressGzip", "DecompressZlib"):
+    dbg("receiver::uncompress::%s::new" % d, "result == pkt.len()", "the ring has 2 * len capacity, so write_size() = 2 * len - 1 >= len for len >= 1, and both sides are 0 for an empty packet (fix F8)")
+
+# =================================================================================================================================================
+# third-party callees: "*|ext|<callee>" applies to every caller
+TRUST = "returns Result / Option on malformed input (read in the vendored source); no documented panicking precondition"
+ext("*|ext|Url::parse", TRUST)
+ext("*|ext|Url::path", "accessor")
+ext("*|ext|de::from_reader", "quick-xml/serde deserialisation of received FDT bytes: errors are returned as Err; the element nesting is fixed by the FdtInstance/File structs")
+ext("*|ext|Engine::decode", TRUST)
+ext("*|ext|Engine::encode", "encoding cannot fail")
+ext("*|ext|Context::new", "md5")
+ext("*|ext|Context::consume", "md5: any byte slice")
+ext("*|ext|Context::finalize", "md5")
+ext("*|ext|DateTime::to_rfc3339", "formatting of a DateTime already built")
+for d in ("DeflateDecoder", "GzDecoder", "ZlibDecoder"):
+    ext("*|ext|%s::new" % d, "wraps a reader")
+    ext("*|ext|%s::get_mut" % d, "accessor")
+    ext("*|ext|%s::read" % d, "io::Read: corrupt deflate data is reported as io::Error (flate2/miniz_oxide trusted)")
+ext("*|ext|ReedSolomon::new", "returns Err for 0 data/parity shards or more than 256 shards")
+ext("*|ext|ReedSolomon::reconstruct", "returns Err for too few shards, empty shards or shards of different sizes (no panicking precondition)")
+RQ = "fec::raptorq::RaptorQDecoder::new"
+ext("*|ext|ObjectTransmissionInformation::new",
+    "raptorq asserts transfer_length <= 942574504275, symbol_size % alignment == 0 (alignment 0 divides by zero) and symbols per block <= 56403: all validated just before (fix F27)",
+    [("site_dom", RQ, r"ObjectTransmissionInformation::new$", r"56403|nb_source_symbols"), ("guard", RQ, r"symbol_alignment"), ("guard", RQ, r"942574504275|block_length")])
+ext("*|ext|SourceBlockDecoder::new", "raptorq: allocates K slots, K <= 56403 validated (fix F27). raptor_code: see the known finding F9 for the Raptor arm (keyed separately)")
+ext("*|ext|PayloadId::new", "raptorq asserts ESI < 2^24: the RaptorQ payload id reader masks ESI to 24 bits (C06.R2: ESI = wire bits 8..31)")
+ext("*|ext|EncodingPacket::new", "constructor")
+ext("*|ext|SourceBlockDecoder::decode",
+    "raptorq: slices the symbol with the announced symbol size and divides by the number of sub-blocks: symbol length and N >= 1 validated (fix F27). "
+    "raptor_code: slices decoded symbols with ceil(block_length / K): shorter symbols are padded first (fix F28)",
+    [("guard", "<fec::raptorq::RaptorQDecoder as fec::FecDecoder>::push_symbol", r"encoding_symbol_length"), ("guard", "<fec::raptor::RaptorDecoder as fec::FecDecoder>::push_symbol", r"symbol_size")])
+ext("*|ext|SourceBlockDecoder::push_encoding_symbol", "raptor_code: stores the symbol (xor resizes rows to the longest)")
+ext("*|ext|SourceBlockDecoder::fully_specified", "raptor_code: rank test")
+
+# call sites that must NOT be covered by a wildcard entry (they are known findings, keyed by caller)
+EXTERNAL_NO_WILDCARD = {"fec::raptor::RaptorDecoder::new|ext|SourceBlockDecoder::new"}
+alloc("<fec::raptor::RaptorDecoder as fec::FecDecoder>::push_symbol|alloc|Vec::resize(&symbol, self.symbol_size, 0)",
+      "symbol_size = ceil(block size / K) <= block size, which is subject to the block allocation limit of push_to_block2; the padded copy is dropped at the end of the call")
